@@ -161,6 +161,52 @@ pub fn run(seed: u64, tier: &str, out: &mut Out) {
         }
         out.emit(&case, &format!("calls={calls} plans={plans} ORACLE {verdict}"));
     }
+    streaks(&mut rng, tier, out);
+}
+
+/// "at any point and any number of times": a terminal that is broken for good while the program keeps going. Hundreds of
+/// consecutive failed draws of one kind (forced ones: println, draws of a finished bar, suspend; ordinary ones: messages; a
+/// mix) on rate-limited and unlimited targets, single bars and MultiProgress members: no call panics, nothing is poisoned,
+/// the logical state is what the calls say. (Counters that drift by one per failed draw only show after such a streak.)
+fn streaks(rng: &mut Rng, tier: &str, out: &mut Out) {
+    let n = if tier == "thorough" { 400 } else { 24 };
+    for case in 0..n {
+        vh::set_auto_advance_ns(0); vh::set_now_ns(T0);
+        let hz = *rng.pick(&[0u8, 1, 20, 255]);
+        let multi = case % 2 == 1;
+        let kind = KINDS[case % KINDS.len()];
+        let streak = *rng.pick(&[260usize, 300, 520, 700]);
+        let mode = case % 4; // 0 println, 1 ticks of a finished bar, 2 messages, 3 mixed
+        let rec = Recorder::new(10, 40, false);
+        let target = || if hz == 0 { ProgressDrawTarget::term_like(Box::new(rec.clone())) } else { ProgressDrawTarget::term_like_with_hz(Box::new(rec.clone()), hz) };
+        let mp = if multi { Some(MultiProgress::with_draw_target(target())) } else { None };
+        let pb = match &mp { Some(m) => m.add(ProgressBar::new(1000)), None => ProgressBar::with_draw_target(Some(1000), target()) };
+        let sib = mp.as_ref().map(|m| m.add(ProgressBar::new(5)));
+        pb.tick();
+        rec.set_fault(rec.calls(), true); rec.set_fault_kind(kind);
+        let pb2 = pb.clone(); let mp2 = mp.clone();
+        let r = catch_unwind(AssertUnwindSafe(move || {
+            if mode == 1 { pb2.finish(); }
+            for i in 0..streak {
+                match if mode == 3 { i % 3 } else { mode } {
+                    0 => pb2.println("x"),
+                    1 => pb2.tick(),
+                    _ => { pb2.set_message(format!("m{i}")); if let Some(m) = &mp2 { let _ = m.println("y"); } }
+                }
+                if mode != 1 { pb2.inc(1); }
+            }
+        }));
+        let mut verdict = String::from("ok");
+        if r.is_err() { verdict = format!("FAIL panic during a streak of {streak} failed draws (mode {mode}, hz {hz}, multi {multi}, {kind:?})"); }
+        rec.clear_fault();
+        let later = catch_unwind(AssertUnwindSafe(|| { pb.tick(); if let Some(s) = &sib { s.inc(1); } if let Some(m) = &mp { let _ = m.println("z"); } (pb.position(), pb.is_finished()) }));
+        match later {
+            Err(_) => if verdict == "ok" { verdict = format!("FAIL poisoned after a streak of {streak} failed draws (mode {mode}, hz {hz}, multi {multi}): later calls panic"); },
+            Ok((pos, fin)) => { let want = if mode == 1 { 1000 } else { streak as u64 }; if verdict == "ok" && (pos != want || fin != (mode == 1)) { verdict = format!("FAIL logical-state after a streak: position {pos} finished {fin}, expected {want} {}", mode == 1); } }
+        }
+        std::mem::forget(pb); std::mem::forget(sib); std::mem::forget(mp);
+        out.emit(&format!("NOMODEL STREAK n={streak} mode={mode} hz={hz} multi={multi} kind={kind:?}"), &format!(" ORACLE {verdict}"));
+    }
 }
 
 /// C18 (fault model): the same histories under sampled fault plans, one line per (history, plan); the
